@@ -48,7 +48,43 @@ let events_str (evs : rc_event list) : string =
     | EvTrailer p -> Printf.sprintf "t%d" (int_of_n p)
     | EvStartxref p -> Printf.sprintf "s%d" (int_of_n p)) evs)
 
+(* rj_job <recover 0|1> <dir> <role>:<name> ... : roles M (main input), P (--pages, command-line order; "." is passed
+   as the main input's name), O (--overlay/--underlay), A (--copy-attachments-from), E (--copy-encryption).  Every file
+   is read with the recovery model (rc_view); the job model and the job specification turn the results into an exit
+   status: "model=<n> spec=<n> files=<name>:<fatal><warn>,..." *)
+let rj_cache : (string, rc_result) Hashtbl.t = Hashtbl.create 16
+let rj_view (recover : bool) (path : string) : rc_result =
+  let key = (if recover then "1" else "0") ^ path in
+  match Hashtbl.find_opt rj_cache key with
+  | Some r -> r
+  | None -> let r = rc_view recover (bytes_of_string (rc_read_file path)) in Hashtbl.add rj_cache key r; r
+
+let rj_job_str (recover : bool) (dir : string) (specs : string list) : string =
+  let unsupported = ref false in
+  let file (name : string) : rj_file =
+    let r = rj_view recover (Filename.concat dir name) in
+    if r.r_unsupported then unsupported := true;
+    rj_of_view (bytes_of_string name) r in
+  let main = ref None and pages = ref [] and uo = ref [] and att = ref [] and enc = ref None in
+  List.iter (fun s ->
+    let role = s.[0] and name = String.sub s 2 (String.length s - 2) in
+    match role with
+    | 'M' -> main := Some (file name)
+    | 'P' -> pages := !pages @ [file name]
+    | 'O' -> uo := !uo @ [file name]
+    | 'A' -> att := !att @ [file name]
+    | 'E' -> enc := Some (file name)
+    | _ -> failwith "role") specs;
+  let j = { rj_main = !main; rj_pages = !pages; rj_uo = !uo; rj_attach = !att; rj_enc = !enc } in
+  if !unsupported then "unsupported" else
+  Printf.sprintf "model=%d spec=%d files=%s" (int_of_n (rj_exit j)) (int_of_n (rjs_exit j))
+    (String.concat "," (List.map (fun f -> Printf.sprintf "%s:%d%d" (string_of_bytes f.rj_name)
+                                    (if f.rj_fatal then 1 else 0) (if f.rj_warn then 1 else 0)) (rj_files j)))
+
 let () =
+  register "rj_job" (fun args -> match args with
+    | rcv :: dir :: specs -> rj_job_str (rcv = "1") dir specs
+    | _ -> "?args");
   register "rc_tok" (fun args -> match args with
     | [h; ml] -> tok_seq (unhex h) (int_of_string ml)
     | _ -> "?args");
